@@ -193,6 +193,9 @@ def eq_spec(ctx, name, symbols, code, spec, domain=None, kind="a", cos_nonneg=()
 
     try:
         runs = paths.explore_claim(body)
+        if runs.truncated:
+            ctx.ob(name + ".paths_exhausted", "guard", None, "path-enumeration", 0.0,
+                   "the code under contract branches on its data: %d paths judged, path budget exhausted -- the remaining paths are undecided" % len(runs))
     except (TypeError, ValueError, Concretization) as exc:
         state.restore()
         if freshness_failure(ctx, name, symbols, code, dom, exc):
@@ -576,6 +579,9 @@ def taylor_spec(ctx, name, symbols, eps, code, spec_coeffs, order, domain=None, 
 
     try:
         runs = paths.explore_claim(body)
+        if runs.truncated:
+            ctx.ob(name + ".paths_exhausted", "guard", None, "path-enumeration", 0.0,
+                   "the code under contract branches on its data: %d paths judged, path budget exhausted -- the remaining paths are undecided" % len(runs))
     except (TypeError, ValueError, Concretization) as exc:
         state.restore()
         if freshness_failure(ctx, name, base, code, dome, exc):
